@@ -108,6 +108,38 @@ print('RESULT ' + json.dumps(out))
 '''
 
 
+CONTENT = r"""
+import sys, json, os
+repo = sys.argv[1]
+cases = json.loads(sys.argv[2])
+sys.path.insert(0, repo)
+os.chdir(repo)
+from logic import basic
+from kernel import theory
+res = []
+for name, lim in cases:
+    try:
+        basic.load_theory(name, limit=tuple(lim) if isinstance(lim, list) else lim)
+        res.append(['ok', sorted(theory.thy.get_data('theorems').keys())])
+    except BaseException as e:
+        res.append(['EXC', type(e).__name__ + ': ' + str(e)[:100]])
+print('RESULT ' + json.dumps(res))
+"""
+
+
+def _content(repo, cases, timeout=900):
+    """theorem names present after each (theory, limit) load, all in ONE fresh process"""
+    try:
+        p = subprocess.run(['/venv/bin/python', '-c', CONTENT, repo, json.dumps(cases)], capture_output=True, text=True,
+                           timeout=timeout)
+    except subprocess.TimeoutExpired:
+        return None
+    for line in p.stdout.splitlines():
+        if line.startswith('RESULT '):
+            return json.loads(line[7:])
+    return None
+
+
 def _run_hist(repo, hist, timeout=600):
     try:
         p = subprocess.run(['/venv/bin/python', '-c', WORKER, repo, json.dumps(hist)], capture_output=True, text=True,
@@ -193,6 +225,83 @@ def run(tier='quick', seed=0):
         if label == 'unknown theory first' and not str(res['events'][0][2]).startswith('EXC'):
             violations.append({'function': 'logic.basic.load_theory', 'clause': 'unknown-theory-reported',
                                'what': 'load of an unknown theory does not raise', 'history': hist})
+    # ---- content of limited loads against the theory files themselves: everything the full load of every direct
+    # import has, the theory's own theorem items before the limit, none of its own theorem items from the limit on.
+    # Limits: items whose (kind, name) key ALSO occurs in a transitive import (re-declared overloaded constants),
+    # other own items, and an item that exists only in an import (must be reported as missing)
+    def lib(n):
+        with open(os.path.join(REPO, 'library', n + '.json'), encoding='utf-8') as f:
+            return json.load(f)
+    def trans_imports(n, acc=None):
+        acc = [] if acc is None else acc
+        for i in lib(n).get('imports', []):
+            if i not in acc:
+                trans_imports(i, acc)
+                acc.append(i)
+        return acc
+    def key_of(it):
+        return [it.get('ty'), it.get('name')]
+    content_cases = []
+    for name in (['int', 'real'] if tier == 'quick' else ['int', 'rat', 'real', 'list', 'set', 'nat']):
+        try:
+            own = lib(name)['content']
+            imps = trans_imports(name)
+        except Exception:
+            continue
+        imp_keys = set()
+        for i in imps:
+            imp_keys |= {json.dumps(key_of(it)) for it in lib(i)['content'] if it.get('name')}
+        recurring = [k for k in (key_of(it) for it in own) if k[1] and json.dumps(k) in imp_keys]
+        own_keys = {json.dumps(key_of(it)) for it in own}
+        only_imp = [json.loads(k) for k in sorted(imp_keys - own_keys) if json.loads(k)[0] == 'thm']
+        picks = rng.sample(recurring, min(len(recurring), 3 if tier == 'quick' else 8))
+        thm_items = [key_of(it) for it in own if it.get('ty') == 'thm']
+        picks += rng.sample(thm_items, min(len(thm_items), 2 if tier == 'quick' else 5))
+        for k in picks:
+            content_cases.append((name, k, 'own'))
+        for k in only_imp[:1]:
+            content_cases.append((name, k, 'import-only'))
+    if content_cases:
+        full_names = sorted({n for n, _, _ in content_cases} | {i for n, _, _ in content_cases
+                                                                for i in lib(n).get('imports', [])})
+        res = _content(REPO, [[n, None] for n in full_names] + [[n, k] for n, k, _ in content_cases])
+        if res is not None:
+            full = {n: (set(r[1]) if r[0] == 'ok' else None) for n, r in zip(full_names, res)}
+            for (name, k, kind), r in zip(content_cases, res[len(full_names):]):
+                evals += 1
+                distinct.add(json.dumps(['content', name, k]))
+                if kind == 'import-only':
+                    if r[0] == 'ok':
+                        violations.append({'function': 'logic.basic.load_theory', 'clause': 'missing-limit-reported',
+                                           'what': 'limit %s names an item of an import of %s, not of %s itself: the '
+                                                   'load returns a theory with %d theorems instead of an error' % (
+                                                       k, name, name, len(r[1])), 'history': 'fresh process'})
+                    continue
+                if r[0] != 'ok' or full.get(name) is None:
+                    continue
+                got = set(r[1])
+                for i in lib(name).get('imports', []):
+                    if full.get(i) is not None and not full[i] <= got:
+                        violations.append({'function': 'logic.basic.load_theory', 'clause': 'limit-content',
+                                           'what': 'load_theory(%s, limit=%s) lacks %d theorems of its import %s (e.g. %s)'
+                                                   % (name, k, len(full[i] - got), i, sorted(full[i] - got)[:3]),
+                                           'history': 'fresh process'})
+                        break
+                own = lib(name)['content']
+                pos = [j for j, it in enumerate(own) if key_of(it) == k][0]
+                imp_all = set().union(*[full[i] for i in lib(name).get('imports', []) if full.get(i)]) \
+                    if lib(name).get('imports') else set()
+                before = [it['name'] for it in own[:pos] if it.get('ty') == 'thm' and it['name'] in full[name]]
+                after = [it['name'] for it in own[pos:] if it.get('ty') == 'thm' and it['name'] not in imp_all
+                         and it['name'] not in before]
+                if [n for n in before if n not in got]:
+                    violations.append({'function': 'logic.basic.load_theory', 'clause': 'limit-content',
+                                       'what': 'load_theory(%s, limit=%s) lacks own theorems before the limit: %s' % (
+                                           name, k, [n for n in before if n not in got][:3]), 'history': 'fresh process'})
+                if [n for n in after if n in got]:
+                    violations.append({'function': 'logic.basic.load_theory', 'clause': 'limit-content',
+                                       'what': 'load_theory(%s, limit=%s) has own theorems from the limit on: %s' % (
+                                           name, k, [n for n in after if n in got][:3]), 'history': 'fresh process'})
     # ---- scratch copy: modification between loads, import cycle
     scratch = tempfile.mkdtemp(prefix='holpy_c12_')
     try:
@@ -292,7 +401,8 @@ def run(tier='quick', seed=0):
             uniq.append(v)
     return {'name': 'c12_loading',
             'rule': '%d (theory, limit) targets x 11 kinds of history, each in a fresh subprocess, compared with the fresh '
-                    'load by a digest of theory.thy.data; file modification and import cycle in a scratch copy of the tree'
+                    'load by a digest of theory.thy.data; content of limited loads (limits at re-declared keys, own theorems, import-only '
+                    'items) against the theory files; file modification and import cycle in a scratch copy of the tree'
                     % len(targets),
             'evaluations': evals, 'distinct_nontrivial': len(distinct), 'samples': samples[:4],
             'targets_not_loading_fresh': [json.loads(k) for k, r in ref.items()
